@@ -126,10 +126,15 @@ func (b *base) Run(ctx context.Context) error {
 			// still unwinding for RunMs after its own Stop: a Run like this keeps watching its context, and
 			// records when the supervisor cancels it (which must not happen before every Stop has returned)
 			if b.spec.RunMs > 0 {
+				done := time.After(time.Duration(b.spec.RunMs) * time.Millisecond)
 				select {
 				case <-ctx.Done():
 					b.rec.add("CS%d", b.i)
-				case <-time.After(time.Duration(b.spec.RunMs) * time.Millisecond):
+					select { // the unwinding takes its time all the same
+					case <-done:
+					case <-b.teardown:
+					}
+				case <-done:
 				case <-b.teardown:
 				}
 			}
@@ -345,16 +350,41 @@ func mkRunnable(b *base) supervisor.Runnable {
 // ---------------------------------------------------------------- running one scenario
 
 type supResult struct {
-	events  []string
-	quiet   []string
-	hung    bool
-	late    bool
-	live    int
-	users   int
-	mainRes string
-	passes  int
-	leaked  int
+	events   []string
+	quiet    []string
+	hung     bool
+	late     bool
+	live     int
+	users    int
+	mainRes  string
+	passes   int
+	leaked   int
 	gateLate int // ms by which a gate was passed (poll answered true) after its startup timeout had elapsed
+}
+
+// manualCtx is a parent context the scenario ends by hand, with the error of its choice: a context whose
+// deadline passes ends with context.DeadlineExceeded, and the harness decides when
+type manualCtx struct {
+	done chan struct{}
+	mu   sync.Mutex
+	err  error
+}
+
+func (c *manualCtx) Deadline() (time.Time, bool) { return time.Time{}, false }
+func (c *manualCtx) Done() <-chan struct{}       { return c.done }
+func (c *manualCtx) Value(any) any               { return nil }
+func (c *manualCtx) Err() error {
+	c.mu.Lock()
+	defer c.mu.Unlock()
+	return c.err
+}
+func (c *manualCtx) end(err error) {
+	c.mu.Lock()
+	if c.err == nil {
+		c.err = err
+		close(c.done)
+	}
+	c.mu.Unlock()
 }
 
 func classifyRes(err error) string {
@@ -384,13 +414,20 @@ func runSupScenario(sc SupScenario) supResult {
 		bases[i] = newBase(i, m, rec, &live, teardown)
 		runnables[i] = mkRunnable(bases[i])
 	}
-	parent, cancel0 := context.WithCancel(context.Background())
+	parent := &manualCtx{done: make(chan struct{})}
+	cancel0 := func() { parent.end(context.Canceled) }
 	defer cancel0()
 	var pcOnce sync.Once
 	cancel := func() { // the parent context is cancelled (and the event recorded) once
 		pcOnce.Do(func() {
 			rec.add("PC")
 			cancel0()
+		})
+	}
+	deadline := func() { // the parent context's deadline passes: same event, other error
+		pcOnce.Do(func() {
+			rec.add("PC")
+			parent.end(context.DeadlineExceeded)
 		})
 	}
 	mainReturned := make(chan struct{})
@@ -405,8 +442,12 @@ func runSupScenario(sc SupScenario) supResult {
 	must(err)
 	mainDone := make(chan string, 1)
 	go func() {
+		t0 := time.Now()
 		res := sv.Run()
 		r := classifyRes(res)
+		if r == "T" && time.Since(t0) < time.Duration(sc.StartupTimeout)*time.Millisecond*7/10 {
+			r = "Tc" // "startup timeout" reported long before any startup timeout can have elapsed: spurious
+		}
 		rec.add("MR:%s", r)
 		close(mainReturned)
 		mainDone <- r
@@ -436,6 +477,8 @@ func runSupScenario(sc SupScenario) supResult {
 				sv.SendSignal(sig)
 			case tr.Kind == "cancel":
 				cancel()
+			case tr.Kind == "deadline":
+				deadline()
 			case tr.Kind == "user":
 				rec.add("UC%d", uid)
 				sv.Shutdown()
@@ -663,7 +706,7 @@ func genSupScenario(r interface{ IntN(int) int }) (SupScenario, string) {
 		}
 	}
 	nt := r.IntN(4)
-	kinds := []string{"int", "term", "hup", "other", "cancel", "user", "user", "reloadall"}
+	kinds := []string{"int", "term", "hup", "other", "cancel", "deadline", "user", "user", "reloadall"}
 	for k := 0; k < nt; k++ {
 		t := Trigger{AtMs: msGrid[r.IntN(len(msGrid))] + r.IntN(3)*10, Kind: kinds[r.IntN(len(kinds))]}
 		if r.IntN(4) == 0 {
@@ -769,6 +812,15 @@ var supCorpus = []SupScenario{
 	// readiness comes only after the startup timeout (polls at 10, 30, 70, 150 ms; timeout 80 ms; ready at 150 ms)
 	{Mocks: []MockSpec{{Caps: "1000", Stop: "f", Outcome: "n", ReadyPolls: 7}, {Caps: "0000", Stop: "f", Outcome: "n"}},
 		StartupInitMs: 10, StartupTimeout: 80, ShutdownMs: 1000, WB: true},
+	// the supervisor's own context has a deadline that passes while a gate is waiting (long before the startup timeout)
+	{Mocks: []MockSpec{{Caps: "1000", Stop: "f", Outcome: "n", ReadyPolls: -1}, {Caps: "0000", Stop: "f", Outcome: "n"}}, Triggers: []Trigger{{AtMs: 20, Kind: "deadline"}},
+		StartupInitMs: 2, StartupTimeout: 400, ShutdownMs: 1000, WB: true},
+	// shutdown begun on another goroutine (a direct Shutdown() call, a ShutdownSender trigger) with a Run that needs 30 ms
+	// to return after its Stop: Run() and every Shutdown() caller return only when it has
+	{Mocks: []MockSpec{{Caps: "0000", Stop: "f", RunMs: 30, Outcome: "n"}, {Caps: "0000", Stop: "f", Outcome: "n"}},
+		Triggers: []Trigger{{AtMs: 10, Kind: "user"}, {AtMs: 12, Kind: "user"}}, StartupInitMs: 1, StartupTimeout: 100, ShutdownMs: 1000, WB: true},
+	{Mocks: []MockSpec{{Caps: "0001", Stop: "f", RunMs: 25, Outcome: "n"}, {Caps: "1000", Stop: "f", RunMs: 10, Outcome: "c", ReadyPolls: 0}},
+		Triggers: []Trigger{{AtMs: 10, Kind: "trig:0"}}, StartupInitMs: 1, StartupTimeout: 100, ShutdownMs: 1000, WB: true},
 	// two concurrent Shutdown() callers while running
 	{Mocks: []MockSpec{{Caps: "0000", Stop: "f", StopMs: 5, Outcome: "n"}, {Caps: "1100", Stop: "l", Outcome: "c", ReadyPolls: 1}}, Triggers: []Trigger{{AtMs: 30, Kind: "user"}, {AtMs: 30, Kind: "user"}, {AtMs: 31, Kind: "int"}},
 		StartupInitMs: 1, StartupTimeout: 100, ShutdownMs: 1000, WB: true},
